@@ -338,7 +338,7 @@ fn leaves_of(f: &F) -> Vec<F> {
 
 pub fn run(tier: Tier) -> i32 {
     let mut run = Run::new("C08", tier, "model_checking");
-    run.rule = "filter trees built from the public node structs: every leaf over literals of every admissible kind (strings with every escape class, numbers ± fraction / 1e21 / 1e-7 / units, dates, times with fraction, timestamps UTC and zoned (+/-, two-digit hour, half hour, zero offset), refs with and without display name incl. a quote, uris, symbols, booleans), paths of 1-4 segments incl. names that start with a keyword, not, ^symbol, *==, four relationship forms; every and/or/parens shape with <= 2 (thorough 3) leaves over a core. (1) Filter::to_string then Filter::try_from gives an equal tree (Debug rendering) and reprints identically; (2) every spelling of the reference printer with <= 2 deviations (required white space: one space / two / newline / tab; optional white space around operators, parens and ->: default / toggled / newline / two spaces) parses to the same tree. (3) long chains: n flat parenthesised groups, n leaves, n and-in-or terms, nesting n deep, for every n 1..72, 100, 120, 126..130, 255..257, 1000. states = trees, transitions = spellings parsed".into();
+    run.rule = "filter trees built from the public node structs: every leaf over literals of every admissible kind (strings with every escape class, numbers ± fraction / 1e21 / 1e-7 / units, dates, times with fraction, timestamps UTC and zoned (+/-, two-digit hour, half hour, zero offset), refs with and without display name incl. a quote, uris, symbols, booleans), paths of 1-4 segments incl. names that start with a keyword, not, ^symbol, *==, four relationship forms; every and/or/parens shape with <= 2 (thorough 3) leaves over a core. (1) Filter::to_string then Filter::try_from gives an equal tree (Debug rendering) and reprints identically; (2) every spelling of the reference printer with <= 2 deviations (required white space: one space / two / newline / tab; optional white space around operators, parens and ->: default / toggled / newline / two spaces) parses to the same tree. (3) long chains: n flat parenthesised groups, n leaves, n and-in-or terms, nesting n deep, for every n 1..72, 100, 120, 126..130, 255..257, 1000; (4) flat chains of 5 000 / 20 000 / 100 000 (thorough 300 000) operands in five shapes, each printed, parsed and reprinted in a child process on a 2 MiB stack (crash / hang = exit status / 30 s watchdog). states = trees, transitions = spellings parsed".into();
     run.assume("an 'equal filter' compares Refs by id (libhaystack's and Haystack's Ref equality): display names of Refs are not compared");
     run.assume("filter grammar of DESIGN Appendix A.3; literal syntax = Zinc scalar syntax; tag names exclude the reserved words");
     crate::engine::quiet_panics();
@@ -425,6 +425,18 @@ pub fn run(tier: Tier) -> i32 {
     });
     run.absorb(l);
     run.require(run.counter("long-chains") > 300, "long chains missing");
+    // very long flat chains, each in a child process on a 2 MiB stack
+    {
+        let sizes = flat_sizes(tier);
+        let n = (sizes.len() * FLAT_SHAPES) as u64;
+        let all = flat_sizes(Tier::Thorough);
+        let d = move |ord: u64| json!({"job": "flat", "ordinal": ord, "generated": true, "shape": (ord as usize) % FLAT_SHAPES, "n": all[(ord as usize) / FLAT_SHAPES], "stack": "2MiB"});
+        let job = crate::engine::isolate::Job { prop: "C08", tier: tier.name(), job: "flat", n, chunk: 1, env: vec![], exe: None, describe: &d };
+        let l = crate::engine::isolate::run_job(&job);
+        let clean = l.fails.is_empty();
+        run.absorb(l);
+        run.require(!clean || run.counter("flat-chains") >= n, "flat chains missing");
+    }
     for t in ["required-space", "optional-space"] {
         run.require(run.counter(&format!("deviated:{t}")) > 0, &format!("choice type {t} never deviated"));
     }
@@ -433,7 +445,64 @@ pub fn run(tier: Tier) -> i32 {
     run.finish(&replay)
 }
 
+// ------------------------------------------------------------------------------ very long flat chains (isolated)
+
+const FLAT_SHAPES: usize = 5;
+fn flat_sizes(tier: Tier) -> Vec<usize> {
+    tier.pick(vec![5_000, 20_000, 100_000], vec![5_000, 20_000, 100_000, 300_000])
+}
+
+fn flat_tree(shape: usize, n: usize) -> F {
+    let a = |k: usize| F::Cmp(p(["a", "b", "c"][k % 3]), OPS[k % OPS.len()], V::Ref(format!("p{k}"), None));
+    match shape {
+        0 => F::Or((0..n).map(a).collect()),
+        1 => F::And((0..n).map(a).collect()),
+        2 => F::Or((0..n).map(|k| F::And(vec![a(k), F::Missing(p("y"))])).collect()),
+        3 => F::And((0..n).map(|k| F::Parens(Box::new(F::Or(vec![a(k), F::Has(p("x"))])))).collect()),
+        _ => F::Or((0..n).map(|k| F::Parens(Box::new(a(k)))).collect()),
+    }
+}
+
+/// child side: print / parse / reprint of one flat chain on a 2 MiB stack (a crash or hang is
+/// reported by the parent from the exit status)
+pub fn child(tier: Tier, job: String, start: u64, end: u64, ctx: &mut crate::engine::isolate::ChildCtx, local: &mut Local) {
+    let sizes = flat_sizes(Tier::Thorough);
+    let _ = tier;
+    let one = |ord: u64, local: &mut Local| {
+        let (shape, n) = ((ord as usize) % FLAT_SHAPES, sizes[(ord as usize) / FLAT_SHAPES]);
+        let t = flat_tree(shape, n);
+        local.eval();
+        local.states += 1;
+        local.transitions += 1;
+        local.count("flat-chains");
+        local.nontrivial(&format!("flat{shape}:{n}"));
+        if let Err((stage, d)) = print_parse(&t) {
+            local.fail(&format!("{stage}:flat-chain"), json!({"job": "flat", "ordinal": ord, "generated": true, "shape": shape, "n": n}), d.chars().take(300).collect());
+        }
+    };
+    if let Some(o) = job.strip_prefix("onegen:flat:") {
+        ctx.begin(0);
+        one(o.parse().unwrap(), local);
+        return;
+    }
+    for ord in start..end {
+        ctx.begin(ord);
+        one(ord, local);
+    }
+}
+
 pub fn replay(case: &J) -> Verdict {
+    if case.get("generated").is_some() {
+        let jobname = format!("onegen:flat:{}", case["ordinal"].as_u64().unwrap_or(0));
+        let c2 = case.clone();
+        let d = move |_o: u64| c2.clone();
+        let job = crate::engine::isolate::Job { prop: "C08", tier: "thorough", job: &jobname, n: 1, chunk: 1, env: vec![], exe: None, describe: &d };
+        let l = crate::engine::isolate::run_job(&job);
+        return match l.fails.values().next() {
+            Some(f) => Err((f.sig.clone(), if f.sig.starts_with("crash") || f.sig == "hang" { f.sig.clone() } else { f.detail.clone() })),
+            None => Ok(()),
+        };
+    }
     let f = f_unjson(&case["filter"]);
     if let Some(ch) = case.get("choices").and_then(|c| c.as_array()) {
         let choices: Vec<u32> = ch.iter().map(|x| x.as_u64().unwrap_or(0) as u32).collect();
